@@ -108,8 +108,7 @@ def IsChain : Stmt → Prop
 
 mutual
 /-- statements covered by the full statement theorems; `ls` describes the enclosing `for` / `switch` statements.
-    `var x T = e` is allowed exactly when `x` does not occur in `e` (otherwise the compiled code reads the freshly
-    allocated slot, see `varDecl_shadow_witness`).  `break`/`continue` need something to leave, `break L`/`continue L`
+    `break`/`continue` need something to leave, `break L`/`continue L`
     an enclosing statement labeled `L` (for `continue`: a `for`); a label may only be put on a `for` or a `switch`
     (the only labels Go lets `break`/`continue` refer to); a `switch` may be nested in at most two others (a fourth
     stack item would be dropped with PACK, which MiniVm does not execute); `default` comes last (the clause chain
@@ -125,8 +124,7 @@ def Allowed (ls : Sigs) : Stmt → Prop
   | .define2 _ _ e => IsCall2 e
   | .seq a b => Allowed ls a ∧ Allowed ls b
   | .opAssign _ op _ => Strict op
-  | .varDecl _ _ none => True
-  | .varDecl x _ (some e) => mentions x e = false
+  | .varDecl _ _ _ => True
   | .exprStmt e => IsCall e
   | .ite _ t _ e => Allowed ls t ∧ Allowed ls e
   | .loop i _ p b => Allowed ls i ∧ NoDecl p ∧ Allowed ((none, true) :: ls) b
@@ -1688,9 +1686,9 @@ theorem stmtFOK_succ (P : Prog) (C : Code) (cx : Ctx) (fuel : Nat)
   | varDecl x isBool init =>
     cases init with
     | some e =>
-      -- `x` does not occur in `e`: same code, same compile-time state and same Go semantics as `x := e`
+      -- same code, same compile-time state and same Go semantics as `x := e`
       simp only [Allowed] at hal
-      rw [compS_varDecl_define cx lp x isBool e st hal] at hp hcnt ⊢
+      rw [compS_varDecl_define cx lp x isBool e st] at hp hcnt ⊢
       simp only [exec] at hex
       simp only [compS] at hp hcnt ⊢
       cases hv : evalE fuel P env e with
